@@ -32,7 +32,7 @@ ASSUMPTIONS = [
 
 
 def gen_case(rng: random.Random, tier: str) -> dict:
-    g = gen.gen_program(rng, feats={**gen.gen_feats(rng), "gens": rng.random() < 0.3})
+    g = gen.gen_program(rng, feats={**gen.gen_feats(rng), "gens": rng.random() < 0.3}, max_nodes=9 if tier == "thorough" else 7, depth=3 if (tier == "thorough" and rng.random() < 0.3) else 2)
     inp = gen.program_inputs(rng, g)
     fns = gen.fn_nodes(g)
     faults = []
